@@ -41,116 +41,116 @@ def BYTES_PER_LOGS_BLOOM : LExpr := 256
 def MAX_EXTRA_DATA_BYTES : LExpr := 32
 
 -- phase0/beacon-chain.md, "Misc dependencies"
-def Fork := struct [("previous_version", Version), ("current_version", Version), ("epoch", Epoch)]
-def ForkData := struct [("current_version", Version), ("genesis_validators_root", Root)]
-def Checkpoint := struct [("epoch", Epoch), ("root", Root)]
+def Fork := struct [(n!"previous_version", Version), (n!"current_version", Version), (n!"epoch", Epoch)]
+def ForkData := struct [(n!"current_version", Version), (n!"genesis_validators_root", Root)]
+def Checkpoint := struct [(n!"epoch", Epoch), (n!"root", Root)]
 def Validator := struct [
-  ("pubkey", BLSPubkey), ("withdrawal_credentials", Bytes32), ("effective_balance", Gwei), ("slashed", .bool),
-  ("activation_eligibility_epoch", Epoch), ("activation_epoch", Epoch), ("exit_epoch", Epoch),
-  ("withdrawable_epoch", Epoch)]
+  (n!"pubkey", BLSPubkey), (n!"withdrawal_credentials", Bytes32), (n!"effective_balance", Gwei), (n!"slashed", .bool),
+  (n!"activation_eligibility_epoch", Epoch), (n!"activation_epoch", Epoch), (n!"exit_epoch", Epoch),
+  (n!"withdrawable_epoch", Epoch)]
 def AttestationData := struct [
-  ("slot", Slot), ("index", CommitteeIndex), ("beacon_block_root", Root), ("source", Checkpoint), ("target", Checkpoint)]
-def Eth1Data := struct [("deposit_root", Root), ("deposit_count", uint64), ("block_hash", Hash32)]
-def DepositMessage := struct [("pubkey", BLSPubkey), ("withdrawal_credentials", Bytes32), ("amount", Gwei)]
+  (n!"slot", Slot), (n!"index", CommitteeIndex), (n!"beacon_block_root", Root), (n!"source", Checkpoint), (n!"target", Checkpoint)]
+def Eth1Data := struct [(n!"deposit_root", Root), (n!"deposit_count", uint64), (n!"block_hash", Hash32)]
+def DepositMessage := struct [(n!"pubkey", BLSPubkey), (n!"withdrawal_credentials", Bytes32), (n!"amount", Gwei)]
 def DepositData := struct [
-  ("pubkey", BLSPubkey), ("withdrawal_credentials", Bytes32), ("amount", Gwei), ("signature", BLSSignature)]
+  (n!"pubkey", BLSPubkey), (n!"withdrawal_credentials", Bytes32), (n!"amount", Gwei), (n!"signature", BLSSignature)]
 def BeaconBlockHeader := struct [
-  ("slot", Slot), ("proposer_index", ValidatorIndex), ("parent_root", Root), ("state_root", Root), ("body_root", Root)]
-def SigningData := struct [("object_root", Root), ("domain", Domain)]
-def SignedBeaconBlockHeader := struct [("message", BeaconBlockHeader), ("signature", BLSSignature)]
+  (n!"slot", Slot), (n!"proposer_index", ValidatorIndex), (n!"parent_root", Root), (n!"state_root", Root), (n!"body_root", Root)]
+def SigningData := struct [(n!"object_root", Root), (n!"domain", Domain)]
+def SignedBeaconBlockHeader := struct [(n!"message", BeaconBlockHeader), (n!"signature", BLSSignature)]
 def DepositProof : STy := .vector Bytes32 (DEPOSIT_CONTRACT_TREE_DEPTH + 1)
-def Deposit := struct [("proof", DepositProof), ("data", DepositData)]
+def Deposit := struct [(n!"proof", DepositProof), (n!"data", DepositData)]
 def JustificationBits : STy := .bitvector JUSTIFICATION_BITS_LENGTH
 
 -- phase0/p2p-interface.md (+ altair/p2p-interface.md for MetaData)
-def ENRForkID := struct [("fork_digest", ForkDigest), ("next_fork_version", Version), ("next_fork_epoch", Epoch)]
+def ENRForkID := struct [(n!"fork_digest", ForkDigest), (n!"next_fork_version", Version), (n!"next_fork_epoch", Epoch)]
 def AttnetBits : STy := .bitvector ATTESTATION_SUBNET_COUNT
 def SyncnetBits : STy := .bitvector SYNC_COMMITTEE_SUBNET_COUNT
-def MetaData := struct [("seq_number", uint64), ("attnets", AttnetBits), ("syncnets", SyncnetBits)]
+def MetaData := struct [(n!"seq_number", uint64), (n!"attnets", AttnetBits), (n!"syncnets", SyncnetBits)]
 def Status := struct [
-  ("fork_digest", ForkDigest), ("finalized_root", Root), ("finalized_epoch", Epoch), ("head_root", Root), ("head_slot", Slot)]
+  (n!"fork_digest", ForkDigest), (n!"finalized_root", Root), (n!"finalized_epoch", Epoch), (n!"head_root", Root), (n!"head_slot", Slot)]
 
 -- altair/beacon-chain.md
-def SyncCommitteePubkeys : STy := .vector BLSPubkey (c "SYNC_COMMITTEE_SIZE")
-def SyncCommittee := struct [("pubkeys", SyncCommitteePubkeys), ("aggregate_pubkey", BLSPubkey)]
+def SyncCommitteePubkeys : STy := .vector BLSPubkey (c n!"SYNC_COMMITTEE_SIZE")
+def SyncCommittee := struct [(n!"pubkeys", SyncCommitteePubkeys), (n!"aggregate_pubkey", BLSPubkey)]
 
 -- bellatrix/beacon-chain.md
-def Transaction : STy := .byteList (c "MAX_BYTES_PER_TRANSACTION")
-def PayloadTransactions : STy := .list Transaction (c "MAX_TRANSACTIONS_PER_PAYLOAD")
+def Transaction : STy := .byteList (c n!"MAX_BYTES_PER_TRANSACTION")
+def PayloadTransactions : STy := .list Transaction (c n!"MAX_TRANSACTIONS_PER_PAYLOAD")
 def LogsBloom : STy := .bytesN BYTES_PER_LOGS_BLOOM
 def ExtraData : STy := .byteList MAX_EXTRA_DATA_BYTES
 
 -- capella/beacon-chain.md
 def Withdrawal := struct [
-  ("index", WithdrawalIndex), ("validator_index", ValidatorIndex), ("address", ExecutionAddress), ("amount", Gwei)]
-def Withdrawals : STy := .list Withdrawal (c "MAX_WITHDRAWALS_PER_PAYLOAD")
+  (n!"index", WithdrawalIndex), (n!"validator_index", ValidatorIndex), (n!"address", ExecutionAddress), (n!"amount", Gwei)]
+def Withdrawals : STy := .list Withdrawal (c n!"MAX_WITHDRAWALS_PER_PAYLOAD")
 def BLSToExecutionChange := struct [
-  ("validator_index", ValidatorIndex), ("from_bls_pubkey", BLSPubkey), ("to_execution_address", ExecutionAddress)]
-def SignedBLSToExecutionChange := struct [("message", BLSToExecutionChange), ("signature", BLSSignature)]
-def SignedBLSToExecutionChanges : STy := .list SignedBLSToExecutionChange (c "MAX_BLS_TO_EXECUTION_CHANGES")
+  (n!"validator_index", ValidatorIndex), (n!"from_bls_pubkey", BLSPubkey), (n!"to_execution_address", ExecutionAddress)]
+def SignedBLSToExecutionChange := struct [(n!"message", BLSToExecutionChange), (n!"signature", BLSSignature)]
+def SignedBLSToExecutionChanges : STy := .list SignedBLSToExecutionChange (c n!"MAX_BLS_TO_EXECUTION_CHANGES")
 
 -- electra/beacon-chain.md
 def DepositRequest := struct [
-  ("pubkey", BLSPubkey), ("withdrawal_credentials", Bytes32), ("amount", Gwei), ("signature", BLSSignature),
-  ("index", uint64)]
+  (n!"pubkey", BLSPubkey), (n!"withdrawal_credentials", Bytes32), (n!"amount", Gwei), (n!"signature", BLSSignature),
+  (n!"index", uint64)]
 def WithdrawalRequest := struct [
-  ("source_address", ExecutionAddress), ("validator_pubkey", BLSPubkey), ("amount", Gwei)]
+  (n!"source_address", ExecutionAddress), (n!"validator_pubkey", BLSPubkey), (n!"amount", Gwei)]
 def ConsolidationRequest := struct [
-  ("source_address", ExecutionAddress), ("source_pubkey", BLSPubkey), ("target_pubkey", BLSPubkey)]
-def DepositRequests : STy := .list DepositRequest (c "MAX_DEPOSIT_REQUESTS_PER_PAYLOAD")
-def WithdrawalRequests : STy := .list WithdrawalRequest (c "MAX_WITHDRAWAL_REQUESTS_PER_PAYLOAD")
-def ConsolidationRequests : STy := .list ConsolidationRequest (c "MAX_CONSOLIDATION_REQUESTS_PER_PAYLOAD")
+  (n!"source_address", ExecutionAddress), (n!"source_pubkey", BLSPubkey), (n!"target_pubkey", BLSPubkey)]
+def DepositRequests : STy := .list DepositRequest (c n!"MAX_DEPOSIT_REQUESTS_PER_PAYLOAD")
+def WithdrawalRequests : STy := .list WithdrawalRequest (c n!"MAX_WITHDRAWAL_REQUESTS_PER_PAYLOAD")
+def ConsolidationRequests : STy := .list ConsolidationRequest (c n!"MAX_CONSOLIDATION_REQUESTS_PER_PAYLOAD")
 def PendingDeposit := struct [
-  ("pubkey", BLSPubkey), ("withdrawal_credentials", Bytes32), ("amount", Gwei), ("signature", BLSSignature),
-  ("slot", Slot)]
+  (n!"pubkey", BLSPubkey), (n!"withdrawal_credentials", Bytes32), (n!"amount", Gwei), (n!"signature", BLSSignature),
+  (n!"slot", Slot)]
 def PendingPartialWithdrawal := struct [
-  ("validator_index", ValidatorIndex), ("amount", Gwei), ("withdrawable_epoch", Epoch)]
-def PendingConsolidation := struct [("source_index", ValidatorIndex), ("target_index", ValidatorIndex)]
-def PendingDeposits : STy := .list PendingDeposit (c "PENDING_DEPOSITS_LIMIT")
-def PendingPartialWithdrawals : STy := .list PendingPartialWithdrawal (c "PENDING_PARTIAL_WITHDRAWALS_LIMIT")
-def PendingConsolidations : STy := .list PendingConsolidation (c "PENDING_CONSOLIDATIONS_LIMIT")
+  (n!"validator_index", ValidatorIndex), (n!"amount", Gwei), (n!"withdrawable_epoch", Epoch)]
+def PendingConsolidation := struct [(n!"source_index", ValidatorIndex), (n!"target_index", ValidatorIndex)]
+def PendingDeposits : STy := .list PendingDeposit (c n!"PENDING_DEPOSITS_LIMIT")
+def PendingPartialWithdrawals : STy := .list PendingPartialWithdrawal (c n!"PENDING_PARTIAL_WITHDRAWALS_LIMIT")
+def PendingConsolidations : STy := .list PendingConsolidation (c n!"PENDING_CONSOLIDATIONS_LIMIT")
 
 /-- Entries of Go package `common`. `helper` marks names that are not containers/aliases of the
 specification documents but list wrappers or library helpers whose SSZ type is nevertheless fixed
 by how the specification uses them (the field type they stand for). -/
-def commonTable : List (String × STy) := [
-  ("common.BLSPubkey", BLSPubkey), ("common.BLSSignature", BLSSignature),
-  ("common.BLSDomainType", DomainType), ("common.BLSDomain", Domain), ("common.SigningData", SigningData),
-  ("common.DepositData", DepositData), ("common.DepositMessage", DepositMessage),
-  ("common.DepositProof", DepositProof), ("common.Deposit", Deposit),
-  ("common.Eth1Address", ExecutionAddress), ("common.Eth1Data", Eth1Data),
-  ("common.ExtraData", ExtraData),
-  ("common.CommitteeIndex", CommitteeIndex), ("common.Gwei", Gwei), ("common.Checkpoint", Checkpoint),
-  ("common.BeaconBlockHeader", BeaconBlockHeader), ("common.SignedBeaconBlockHeader", SignedBeaconBlockHeader),
-  ("common.JustificationBits", JustificationBits),
-  ("common.KZGCommitment", KZGCommitment), ("common.LogsBloom", LogsBloom),
-  ("common.Eth2Data", ENRForkID), ("common.AttnetBits", AttnetBits), ("common.SyncnetBits", SyncnetBits),
-  ("common.SeqNr", uint64), ("common.Ping", uint64), ("common.Pong", uint64),
-  ("common.MetaData", MetaData), ("common.Status", Status), ("common.Goodbye", uint64),
-  ("common.DepositRequest", DepositRequest), ("common.WithdrawalRequest", WithdrawalRequest),
-  ("common.ConsolidationRequest", ConsolidationRequest),
-  ("common.DepositRequests", DepositRequests), ("common.WithdrawalRequests", WithdrawalRequests),
-  ("common.ConsolidationRequests", ConsolidationRequests),
-  ("common.PendingDeposit", PendingDeposit), ("common.PendingPartialWithdrawal", PendingPartialWithdrawal),
-  ("common.PendingConsolidation", PendingConsolidation),
-  ("common.PendingDeposits", PendingDeposits), ("common.PendingPartialWithdrawals", PendingPartialWithdrawals),
-  ("common.PendingConsolidations", PendingConsolidations),
-  ("common.SyncCommitteePubkeys", SyncCommitteePubkeys), ("common.SyncCommittee", SyncCommittee),
-  ("common.Timestamp", uint64), ("common.DepositIndex", uint64), ("common.Slot", Slot), ("common.Epoch", Epoch),
-  ("common.PayloadTransactions", PayloadTransactions), ("common.Transaction", Transaction),
-  ("common.ValidatorIndex", ValidatorIndex),
-  ("common.Version", Version), ("common.ForkDigest", ForkDigest), ("common.ForkData", ForkData), ("common.Fork", Fork),
-  ("common.NetworkMessageDomain", DomainType),
-  ("common.WithdrawalIndex", WithdrawalIndex), ("common.Withdrawal", Withdrawal), ("common.Withdrawals", Withdrawals),
-  ("common.BLSToExecutionChange", BLSToExecutionChange),
-  ("common.SignedBLSToExecutionChange", SignedBLSToExecutionChange),
-  ("common.SignedBLSToExecutionChanges", SignedBLSToExecutionChanges),
+def commonTable : List (Name × STy) := [
+  (n!"common.BLSPubkey", BLSPubkey), (n!"common.BLSSignature", BLSSignature),
+  (n!"common.BLSDomainType", DomainType), (n!"common.BLSDomain", Domain), (n!"common.SigningData", SigningData),
+  (n!"common.DepositData", DepositData), (n!"common.DepositMessage", DepositMessage),
+  (n!"common.DepositProof", DepositProof), (n!"common.Deposit", Deposit),
+  (n!"common.Eth1Address", ExecutionAddress), (n!"common.Eth1Data", Eth1Data),
+  (n!"common.ExtraData", ExtraData),
+  (n!"common.CommitteeIndex", CommitteeIndex), (n!"common.Gwei", Gwei), (n!"common.Checkpoint", Checkpoint),
+  (n!"common.BeaconBlockHeader", BeaconBlockHeader), (n!"common.SignedBeaconBlockHeader", SignedBeaconBlockHeader),
+  (n!"common.JustificationBits", JustificationBits),
+  (n!"common.KZGCommitment", KZGCommitment), (n!"common.LogsBloom", LogsBloom),
+  (n!"common.Eth2Data", ENRForkID), (n!"common.AttnetBits", AttnetBits), (n!"common.SyncnetBits", SyncnetBits),
+  (n!"common.SeqNr", uint64), (n!"common.Ping", uint64), (n!"common.Pong", uint64),
+  (n!"common.MetaData", MetaData), (n!"common.Status", Status), (n!"common.Goodbye", uint64),
+  (n!"common.DepositRequest", DepositRequest), (n!"common.WithdrawalRequest", WithdrawalRequest),
+  (n!"common.ConsolidationRequest", ConsolidationRequest),
+  (n!"common.DepositRequests", DepositRequests), (n!"common.WithdrawalRequests", WithdrawalRequests),
+  (n!"common.ConsolidationRequests", ConsolidationRequests),
+  (n!"common.PendingDeposit", PendingDeposit), (n!"common.PendingPartialWithdrawal", PendingPartialWithdrawal),
+  (n!"common.PendingConsolidation", PendingConsolidation),
+  (n!"common.PendingDeposits", PendingDeposits), (n!"common.PendingPartialWithdrawals", PendingPartialWithdrawals),
+  (n!"common.PendingConsolidations", PendingConsolidations),
+  (n!"common.SyncCommitteePubkeys", SyncCommitteePubkeys), (n!"common.SyncCommittee", SyncCommittee),
+  (n!"common.Timestamp", uint64), (n!"common.DepositIndex", uint64), (n!"common.Slot", Slot), (n!"common.Epoch", Epoch),
+  (n!"common.PayloadTransactions", PayloadTransactions), (n!"common.Transaction", Transaction),
+  (n!"common.ValidatorIndex", ValidatorIndex),
+  (n!"common.Version", Version), (n!"common.ForkDigest", ForkDigest), (n!"common.ForkData", ForkData), (n!"common.Fork", Fork),
+  (n!"common.NetworkMessageDomain", DomainType),
+  (n!"common.WithdrawalIndex", WithdrawalIndex), (n!"common.Withdrawal", Withdrawal), (n!"common.Withdrawals", Withdrawals),
+  (n!"common.BLSToExecutionChange", BLSToExecutionChange),
+  (n!"common.SignedBLSToExecutionChange", SignedBLSToExecutionChange),
+  (n!"common.SignedBLSToExecutionChanges", SignedBLSToExecutionChanges),
   -- helpers: lists over the validator registry / a committee (phase0 `get_beacon_committee` results, balance deltas)
-  ("common.GweiList", .list Gwei (c "VALIDATOR_REGISTRY_LIMIT")),
-  ("common.Deltas", struct [("rewards", .list Gwei (c "VALIDATOR_REGISTRY_LIMIT")),
-                            ("penalties", .list Gwei (c "VALIDATOR_REGISTRY_LIMIT"))]),
-  ("common.CommitteeIndices", .list ValidatorIndex (c "MAX_VALIDATORS_PER_COMMITTEE")),
-  ("common.SlotCommitteeIndices", .list ValidatorIndex (c "MAX_VALIDATORS_PER_COMMITTEE" * c "MAX_COMMITTEES_PER_SLOT"))
+  (n!"common.GweiList", .list Gwei (c n!"VALIDATOR_REGISTRY_LIMIT")),
+  (n!"common.Deltas", struct [(n!"rewards", .list Gwei (c n!"VALIDATOR_REGISTRY_LIMIT")),
+                            (n!"penalties", .list Gwei (c n!"VALIDATOR_REGISTRY_LIMIT"))]),
+  (n!"common.CommitteeIndices", .list ValidatorIndex (c n!"MAX_VALIDATORS_PER_COMMITTEE")),
+  (n!"common.SlotCommitteeIndices", .list ValidatorIndex (c n!"MAX_VALIDATORS_PER_COMMITTEE" * c n!"MAX_COMMITTEES_PER_SLOT"))
 ]
 
 end Zrnt.Schema.Spec
